@@ -277,6 +277,9 @@ def gen_case(rnd, kind='build', tmax=10):
             args['fuel_efficiency'] = 0.
         if rnd.random() < 0.5 and mode != 'plain':
             args['consumption_if_on'] = gen_param(rnd, case, pts, 'k_ci', 0, 3, ['scalar', 'scalar', 'dict', 'key', 'array'])
+    # start / shutdown ramp profiles
+    if kind in ('build', 'portfolio') and mode == 'any' and rnd.random() < (0.3 if kind == 'build' else 0.25):
+        gen_profiles(rnd, case, args, heat, freq, unit, T)
     if case['cls'] == 'CHPAsset_with_min_load_costs':
         r = rnd.random()
         if r < 0.8:
@@ -307,6 +310,67 @@ def gen_case(rnd, kind='build', tmax=10):
     if kind == 'portfolio':
         case['companions'] = gen_companions(rnd, case, T)
     return case
+
+
+RAMP_FREQS = {'h': ['h', '30min', '2h', '15min'], '15min': ['15min', '5min', '30min', 'h'], '30min': ['30min', '15min', 'h'],
+              '2h': ['2h', 'h', '4h'], '4h': ['4h', '2h', 'h'], 'd': ['d', '12h'], 'min': ['min']}
+
+
+def gen_profiles(rnd, case, args, heat, freq, unit, T):
+    """start and/or shutdown ramp profiles (lists in `ramp_freq`, default: the main time unit), optionally with
+    heat variants; values per main time unit"""
+    which = rnd.choice(['both', 'both', 'start', 'shutdown'])
+    if rnd.random() < 0.65:
+        rf = None
+    else:
+        rf = rnd.choice(RAMP_FREQS.get(freq, [freq]))
+        args['ramp_freq'] = rf
+    eff = rf if rf is not None else unit
+    same = (eff == freq)
+    if not same:
+        case['exact'] = False
+
+    def prof(n):
+        lo = sorted(q8(rnd, 0, 3) for _ in range(n))
+        up = [v + q8(rnd, 0, 2) for v in lo]
+        return lo, up
+    give_heat = heat and rnd.random() < 0.4
+    if which in ('both', 'start'):
+        lo, up = prof(rnd.choice([1, 2, 2, 3]))
+        args['start_ramp_lower_bounds'] = lo
+        if give_heat or rnd.random() < 0.7:
+            args['start_ramp_upper_bounds'] = up
+        if give_heat:
+            hl, hu = prof(len(lo))
+            args['start_ramp_lower_bounds_heat'], args['start_ramp_upper_bounds_heat'] = hl, hu
+    if which in ('both', 'shutdown'):
+        lo, up = prof(rnd.choice([1, 2, 2, 3]))
+        lo, up = lo[::-1], up[::-1]
+        args['shutdown_ramp_lower_bounds'] = lo
+        if give_heat or rnd.random() < 0.7:
+            args['shutdown_ramp_upper_bounds'] = up
+        if give_heat:
+            hl, hu = prof(len(lo))
+            args['shutdown_ramp_lower_bounds_heat'], args['shutdown_ramp_upper_bounds_heat'] = hl, hu
+    if case['kind'] == 'build' and rnd.random() < 0.04 and 'start_ramp_upper_bounds' in args:
+        args['start_ramp_upper_bounds'] = args['start_ramp_upper_bounds'] + [1.]      # lengths differ: assertion
+    case['profiles'] = which
+
+
+def profiles_json(case):
+    """the `profiles` field of the driver request (None: no profile argument given)"""
+    a = case['args']
+    keys = {'start_lo': 'start_ramp_lower_bounds', 'start_up': 'start_ramp_upper_bounds', 'shut_lo': 'shutdown_ramp_lower_bounds',
+            'shut_up': 'shutdown_ramp_upper_bounds', 'start_lo_h': 'start_ramp_lower_bounds_heat', 'start_up_h': 'start_ramp_upper_bounds_heat',
+            'shut_lo_h': 'shutdown_ramp_lower_bounds_heat', 'shut_up_h': 'shutdown_ramp_upper_bounds_heat'}
+    if not any(v in a for v in keys.values()):
+        return None
+    from pandas.tseries.frequencies import to_offset
+    eff = a.get('ramp_freq') or case['grid']['unit']
+    out = {k: (None if a.get(v) is None else [fs(x) for x in a[v]]) for k, v in keys.items()}
+    out['ramp_freq_s'] = int(pd.to_timedelta(to_offset(eff)).total_seconds())
+    out['same_freq'] = (eff == case['grid']['freq'])
+    return out
 
 
 def gen_focus_start_fuel(rnd, tmax=10):
@@ -423,7 +487,7 @@ def run_impl(case):
             tg = scen.make_grid(case['grid'])
             op = asset.setup_optim_problem(prices, tg)
             out['problem'] = problem_json(op, name=case['name'], nodes=case['nodes'])
-            out['attrs'] = {k: int(getattr(asset, k)) for k in ('heat_idx', 'on_idx', 'start_idx') if hasattr(asset, k)}
+            out['attrs'] = {k: int(getattr(asset, k)) for k in ('heat_idx', 'on_idx', 'start_idx', 'shutdown_idx') if hasattr(asset, k)}
             out['op'] = op
             out['asset'] = asset
         except Exception as e:
@@ -458,6 +522,9 @@ def request(case, ir, costs_only=False):
         thr = a.get('min_load_threshhold', 0.)
         mlc = a.get('min_load_costs', None)
         req['min_load'] = {'threshold': None if thr is None else param_json(thr), 'costs': None if mlc is None else param_json(mlc)}
+    pj = profiles_json(case)
+    if pj is not None:
+        req['profiles'] = pj
     if costs_only:
         req['costs_only'] = True
     return req
@@ -506,6 +573,8 @@ def compare(case, ir, mr):
                 # the attribute of the object is only meaningful where the variable block exists
                 if (k == 'heat_idx' and info['heat']) or (k == 'on_idx' and info['inc_on']) or (k == 'start_idx' and info['inc_start']):
                     out.append('chp: %s = %d (model) vs %d (impl)' % (k, info[k], ir['attrs'][k]))
+        if info.get('profiles') and ir['attrs'].get('shutdown_idx') != info['shut_idx']:
+            out.append('chp: shutdown_idx = %s (model) vs %s (impl)' % (info['shut_idx'], ir['attrs'].get('shutdown_idx')))
         if ('on_idx' in ir['attrs']) != info['inc_on'] or ('start_idx' in ir['attrs']) != info['inc_start']:
             out.append('chp: include flags on/start %s/%s (model) vs %s/%s (impl)' % (
                 info['inc_on'], info['inc_start'], 'on_idx' in ir['attrs'], 'start_idx' in ir['attrs']))
@@ -772,9 +841,11 @@ def oracle_spurious_start(case, ir, info):
 
 
 # ------------------------------------------------------------------------------------------- (b) optimised portfolio
-def oracle_portfolio(case):
+def oracle_portfolio(case, info=None):
     """optimise plant + markets with the real code and recompute capacity, ramp, heat share, fuel and start
-    flags from x"""
+    flags from x; with start / shutdown ramp profiles (bounds on the grid taken from the model: `info`) the virtual
+    dispatch in the k-th step after a start / before a shutdown must lie within the k-th profile bounds, which take
+    precedence over min_cap / max_cap / ramp there"""
     nodes = {n: eao.Node(n) for n in case['nodes']}
     with Quiet():
         asset = build_asset(case)
@@ -821,8 +892,57 @@ def oracle_portfolio(case):
     a = case['args']
     tar = math.ceil(a.get('time_already_running', 0) * case['unit_s'] / case['step_s'])
     facts = dict(on_vars=has_on, start_vars=has_start, tar=tar, state=case.get('state'))
+    prof = bool(info and info.get('profiles'))
+    phase = np.zeros(T, dtype=bool)
+    if prof:
+        shut, has_shut = series('bool_shutdown', None)
+        shut_r = np.round(shut)
+        S, Q = info['S'], info['Q']
+        sl, su, ql, qu = ([float(Fraction(v)) for v in info[k]] for k in ('sl', 'su', 'ql', 'qu'))
+        sphase = -np.ones(T, dtype=int)      # position in a start ramp
+        qphase = -np.ones(T, dtype=int)      # position in a shutdown ramp
+        for s0 in range(T):
+            if start_r[s0] == 1:
+                for k in range(S):
+                    if s0 + k < T:
+                        sphase[s0 + k] = k
+            if shut_r[s0] == 1:
+                for j in range(Q):
+                    if s0 - 1 - j >= 0:
+                        qphase[s0 - 1 - j] = j
+        if 0 < tar < S:
+            for i in range(min(S - tar, T)):
+                sphase[i] = tar + i
+        phase = (sphase >= 0) | (qphase >= 0)
+        nprof = 0
+        for t in range(T):
+            if sphase[t] >= 0 and qphase[t] >= 0:
+                continue        # both ramps at once: the rows combine the two reliefs, nothing simple to expect
+            if sphase[t] >= 0 and on_r[t] == 1:
+                k = sphase[t]
+                nprof += 1
+                if v[t] < sl[k] - tol or v[t] > su[k] + tol:
+                    viol.append(V('chp.profile', 'step %d is step %d of a start ramp: virtual dispatch %.6g outside the profile bounds [%.6g, %.6g]' % (
+                        t, k, v[t], sl[k], su[k]), kind='start_profile', **facts))
+                    break
+            if qphase[t] >= 0 and on_r[t] == 1:
+                j = qphase[t]
+                nprof += 1
+                if v[t] < ql[j] - tol or v[t] > qu[j] + tol:
+                    viol.append(V('chp.profile', 'step %d is %d steps before a shutdown: virtual dispatch %.6g outside the profile bounds [%.6g, %.6g]' % (
+                        t, j + 1, v[t], ql[j], qu[j]), kind='shutdown_profile', **facts))
+                    break
+        # with shutdown variables the flags are exact: start_t - shut_t = on_t - on_{t-1}
+        for t in range(T):
+            prev = (1. if tar > 0 else 0.) if t == 0 else on_r[t - 1]
+            if start_r[t] - shut_r[t] != on_r[t] - prev or (start_r[t] == 1 and shut_r[t] == 1 and t < T - 1):
+                viol.append(V('chp.start_flag', 'step %d: start %d, shutdown %d but on goes %d -> %d' % (t, start_r[t], shut_r[t], prev, on_r[t]),
+                              kind='start_shutdown_flags', **facts))
+                break
     # capacity
     for t in range(T):
+        if phase[t]:
+            continue
         if has_on and on_r[t] == 0:
             if abs(v[t]) > tol:
                 viol.append(V('chp.capacity', 'step %d: off but virtual dispatch %.6g' % (t, v[t]), kind='off_nonzero', **facts))
@@ -836,6 +956,8 @@ def oracle_portfolio(case):
     if P['ramp'] is not None:
         ramp = P['ramp']
         for t in range(1, T):
+            if phase[t] or phase[t - 1]:
+                continue
             if abs(v[t] - v[t - 1]) > ramp + tol:
                 code_view = (power[t] + conv[t] * heat[t]) - (power[t - 1] + conv[t] * heat[t - 1])
                 viol.append(V('chp.ramp', 'step %d: virtual dispatch changes by %.6g > ramp %.6g (with the conversion factor of step t on both heats: %.6g)' % (
@@ -843,7 +965,7 @@ def oracle_portfolio(case):
                     kind='ramp_conv_index' if abs(code_view) <= ramp + tol else 'ramp_step', **facts))
                 break
         d0 = v[0] - P['last']
-        if abs(d0) > ramp + tol and not (has_on and on_r[0] == 0 and tar == 0):
+        if abs(d0) > ramp + tol and not (has_on and on_r[0] == 0 and tar == 0) and not phase[0]:
             viol.append(V('chp.first_ramp', 'first step: virtual dispatch %.6g vs last_dispatch %.6g: change %.6g > ramp %.6g' % (v[0], P['last'], d0, ramp),
                           kind='first_step_ramp_up' if d0 > 0 else 'first_step_ramp_down', direction='up' if d0 > 0 else 'down', probe=False, **facts))
     # heat share
@@ -870,7 +992,7 @@ def oracle_portfolio(case):
             t = int(bad[0])
             viol.append(V('chp.fuel', 'step %d: fuel node dispatch %.8g, expected -(v/eta) - cons*on - start_fuel*start = %.8g' % (t, got[t], exp[t]), kind='fuel', **facts))
     # start flags
-    if has_start:
+    if has_start and not prof:
         for t in range(T):
             prev = (1. if tar > 0 else 0.) if t == 0 else on_r[t - 1]
             trans = 1. if (on_r[t] == 1 and prev == 0) else 0.
@@ -913,6 +1035,8 @@ def oracle_portfolio(case):
     obs = {'solved': True, 'on_steps': int(on_r.sum()) if has_on else None, 'starts': int(start_r.sum()) if has_start else None,
            'value': float(res.value), 'v_max': float(v.max())}
     obs.update(extra_obs)
+    if prof:
+        obs['profile_steps'] = nprof
     return viol, obs
 
 
@@ -967,7 +1091,18 @@ def run_case(case, drv, pattern_tmax=7):
     if info['tar'] > 0 and info['R'] - info['tar'] > ir['asset'].timegrid.restricted.T and info['inc_start']:
         f.append('bound-spill')
     T = ir['asset'].timegrid.restricted.T
-    if info['inc_on'] and ('min_take' not in a and 'max_take' not in a):
+    prof = bool(info.get('profiles'))
+    if prof:
+        f.append('profiles:' + str(case.get('profiles')))
+        f.append('S=%d' % info['S'])
+        f.append('Q=%d' % info['Q'])
+        if any(k.endswith('_heat') for k in a):
+            f.append('profiles-heat')
+        if 'ramp_freq' in a:
+            f.append('ramp_freq')
+    if prof:
+        pass        # the first-step and spurious-start probes assume the profile-free rows
+    elif info['inc_on'] and ('min_take' not in a and 'max_take' not in a):
         v, obs = oracle_first_ramp(case, ir, info)
         r['violations'] += v
         r['observed'].update(obs)
@@ -985,7 +1120,7 @@ def run_case(case, drv, pattern_tmax=7):
         r['observed'].update(obs)
         f.append('patterns')
     if case['kind'] == 'portfolio':
-        v, obs = oracle_portfolio(case)
+        v, obs = oracle_portfolio(case, info)
         r['violations'] += v
         r['observed'].update(obs)
         f.append('solved' if obs.get('solved') else 'unsolved')
